@@ -1093,8 +1093,10 @@ def index_value(self, v, idx, node):
             try:
                 r = v.v[idx.v]
                 return r if isinstance(r, Val) else Const(r, v.taint)
+            except (KeyError, IndexError):
+                raise PathEnd()      # KeyError / IndexError: the path continues in an enclosing handler, if any
             except Exception:
-                self.unsupported('constant subscript out of range', node)
+                self.unsupported('constant subscript', node)
                 return TopV('subscript')
         if isinstance(v.v, dict):
             vals = list(v.v.values())
